@@ -249,6 +249,21 @@ def install(world):
         return V(TSeq(STR), f(eng.coerce(args[0], STR, node).term, z3.StringVal('-')))
     world.add_prim('split_dash', p_split_dash, VT.split_dash)
 
+    def p_join_empty(eng, args, st, node):
+        f = world.ufunc('str.join.str', STR.sort(), TSeq(STR).sort(), STR.sort())
+        return V(STR, f(z3.StringVal(''), eng.coerce(args[0], TSeq(STR), node).term))
+    world.add_prim('join_empty', p_join_empty, VT.join_empty)
+
+    def coerce_hook(eng, v, t, node):
+        # a NavigableString used where a str is expected is its text
+        if isinstance(v, V) and v.t == NODE and t == STR:
+            cs = getattr(eng, 'cur_state', None)
+            if cs is not None and not eng.spec_mode:
+                eng.oblige(cs, 'str-node', is_navstr(v.term), 'page element used as a string is a NavigableString')
+            return V(STR, text(v.term))
+        return None
+    world.coerce_hook = coerce_hook
+
     def p_same(eng, args, st, node):
         return V(BOOL, eng.eq(args[0], args[1], node))
     world.add_prim('same', p_same, VT.same)
